@@ -187,6 +187,19 @@ class SchemaBuilder:
 
     def gen_union(self, ns, depth):
         d = self.d
+        if d.p(0.2):
+            # a union made of primitives only (numeric families next to string/bytes/boolean): the shapes where
+            # promotion, float deferral and look-alike values matter
+            pool = ["string", "double", "int", "null", "float", "long", "boolean", "bytes"]
+            k = d.rng(2, 5)
+            start = d.i(len(pool))
+            step = d.choice([1, 3, 5, 7])
+            picked = []
+            for j in range(k):
+                p = pool[(start + j * step) % len(pool)]
+                if p not in picked:
+                    picked.append(p)
+            return {"k": "union", "branches": [{"k": p} for p in picked]}
         n = d.rng(1, self.f.union_max)
         branches = []
         used_kinds = set()
@@ -728,6 +741,10 @@ class DataGen:
             ok = [min(range(len(bs)), key=lambda i: self.nh(bs[i]))]
         i = d.choice(ok)
         v = self.gen(bs[i], budget - 1, in_union=True)
+        kinds = [M.deref(b, self.table)["k"] for b in bs]
+        if kinds[i] == "string" and ("double" in kinds or "float" in kinds or "int" in kinds or "long" in kinds or "boolean" in kinds) and d.p(0.4):
+            # a string that looks like a value of a sibling branch must still go to the string branch
+            v = d.choice(["1.5", "42", "NaN", "-inf", "1e3", "true", "0"])
         if f.hints and d.p(f.hints):
             return (M.branch_name(bs[i], self.table), v)
         return v
